@@ -1,9 +1,9 @@
 #!/bin/sh
 # Usage: quiet.sh "<ids>" "<seeds>"  -- run quick tiers at several seeds on the unchanged tree; every run must exit 0.
 IDS=${1:-"C01"}; SEEDS=${2:-"1 2 3 4 5"}
-cd /verif
+cd /verif; mkdir -p .scratch
 for id in $IDS; do for s in $SEEDS; do
-  VERIF_SEED=$s /venv/bin/python run.py $id --tier quick > /tmp/quiet_$id_$s.out 2>&1; rc=$?
-  echo "$id seed=$s rc=$rc $(tail -1 /tmp/quiet_$id_$s.out)"
-  [ $rc -ne 0 ] && grep -h "VIOLATION\|HARNESS\|KNOWN" /tmp/quiet_$id_$s.out | head
+  VERIF_SEED=$s /venv/bin/python run.py $id --tier quick > .scratch/quiet_${id}_$s.out 2>&1; rc=$?
+  echo "$id seed=$s rc=$rc $(tail -1 .scratch/quiet_${id}_$s.out | cut -c1-120)"
+  [ $rc -ne 0 ] && grep -h "VIOLATION\|HARNESS" .scratch/quiet_${id}_$s.out | head -5
 done; done
